@@ -75,6 +75,7 @@ package functions
 //@   ensures [C19.days-in-month] r == dim(month, year)
 
 //@ func _dayOfYear(d, m, y) returns (r)
+//@   canary [C19.canary-day-of-year] r == d
 //@   safety C19
 //@   requires validDate(y, m, d)
 //@   ensures [C19.day-of-year] r == dfc(y,m,d) - dfc(y,1,1) + 1
